@@ -91,11 +91,35 @@ def dfs(par, roots, children_on):
     return out
 
 
+class _Links(list):
+    """A dependency cell read for what the statement fixes: which ids are shown and which of them are marked as external.
+    Brackets, the separator's blanks and the order of the ids are layout the statement leaves open."""
+
+    def __eq__(self, other):
+        return sorted(self) == sorted(other)
+
+    def __ne__(self, other):
+        return not self.__eq__(other)
+
+
 def expected_link_cell(t, linked):
-    parts = []
-    for o in linked:
-        parts.append(f'{o.id}' + ('(external)' if o.wbs is not t.wbs else ''))
-    return '[' + ','.join(parts) + ']'
+    return _Links((str(o.id), o.wbs is not t.wbs) for o in linked)
+
+
+def parse_link_cell(body):
+    s_ = body.strip()
+    if s_[:1] in '[(' and s_[-1:] in '])':
+        s_ = s_[1:-1]
+    out = _Links()
+    for item in s_.split(','):
+        item = item.strip()
+        if not item:
+            continue
+        ext = 'external' in item.lower()
+        if ext and '(' in item:
+            item = item[:item.index('(')].strip()
+        out.append((item, ext))
+    return out
 
 
 def check_sheet(text, shown, objs, fields, V, P):
@@ -144,12 +168,12 @@ def check_sheet(text, shown, objs, fields, V, P):
                     V('unknown-field-dumps-object', f'task {t.id}: {cell!r}')
                 P('unknown-field')
             elif f == 'predecessors':
-                if body != expected_link_cell(t, list(t.predecessors)):
+                if parse_link_cell(body) != expected_link_cell(t, list(t.predecessors)):
                     V('predecessors-cell', f'task {t.id}: {body!r}, expected {expected_link_cell(t, list(t.predecessors))!r}')
                 if any(o.wbs is not t.wbs for o in t.predecessors):
                     P('external-link')
             elif f == 'successors':
-                if body != expected_link_cell(t, list(t.successors)):
+                if parse_link_cell(body) != expected_link_cell(t, list(t.successors)):
                     V('successors-cell', f'task {t.id}: {body!r}, expected {expected_link_cell(t, list(t.successors))!r}')
                 if any(o.wbs is not t.wbs for o in t.successors):
                     P('external-link')
